@@ -118,6 +118,10 @@ func (r *Recorder) Case(hash string, nontrivial bool, labels []string, sample fu
 	r.Evaluations++
 	first := !r.all[hash]
 	r.all[hash] = true
+	if len(r.Samples) == 0 && sample != nil {
+		// always show at least one explored case
+		r.Samples = append(r.Samples, sample())
+	}
 	if nontrivial {
 		if !r.nontrivial[hash] {
 			r.nontrivial[hash] = true
